@@ -484,8 +484,8 @@ fn run_case<T: Scalar>(desc: &str, ops: &[&str]) -> String {
     out
 }
 
-/// `mem <desc> <L>`: live heap bytes owned after L and after 4L updates of a deterministic f64 stream
-fn mem_case(desc: &str, l: usize) -> String {
+/// `mem <desc> ; <L> [walk|const|steps]`: live heap bytes owned after L, 2L and 4L updates of a deterministic f64 stream
+fn mem_case(desc: &str, l: usize, kind: &str) -> String {
     let toks = tokenize(desc);
     let sx = parse_sx(&toks, &mut 0);
     let mut cx = Ctx { probes: vec![] };
@@ -500,7 +500,16 @@ fn mem_case(desc: &str, l: usize) -> String {
             s ^= s << 13;
             s ^= s >> 7;
             s ^= s << 17;
-            x += ((s % 9) as f64 - 4.0) * 0.25;
+            match kind {
+                "const" => {}
+                // long constant stretches separated by jumps
+                "steps" => {
+                    if i % 97 == 0 {
+                        x += ((s % 9) as f64 - 4.0) * 0.25;
+                    }
+                }
+                _ => x += ((s % 9) as f64 - 4.0) * 0.25,
+            }
             if x < 1.0 {
                 x = 1.0
             }
@@ -562,7 +571,7 @@ fn main() {
             }
             "f64" => run_case::<f64>(desc, &ops),
             "f32" => run_case::<f32>(desc, &ops),
-            "mem" => mem_case(desc, ops[0].parse().unwrap()),
+            "mem" => mem_case(desc, ops[0].parse().unwrap(), ops.get(1).copied().unwrap_or("walk")),
             _ => panic!("bad mode"),
         };
         writeln!(o, "{id} {res}").unwrap();
